@@ -12,3 +12,12 @@ pub broadcast axiom fn axiom_iter_clone<I: Iterator + Clone>(a: I, b: I)
 pub uninterp spec fn into_atom<T>(v: T) -> super::fp::BracketAtom;
 pub broadcast axiom fn axiom_into_atom_id(a: super::fp::BracketAtom)
     ensures #[trigger] into_atom::<super::fp::BracketAtom>(a) == a;
+
+/// ASSUMED: a `String` is determined by its characters (std: `String: Eq` compares contents), and every sequence of
+/// characters is the content of a `String`.
+pub uninterp spec fn string_of(s: Seq<char>) -> String;
+pub broadcast axiom fn axiom_string_of_view(s: Seq<char>)
+    ensures #[trigger] string_of(s)@ == s;
+pub broadcast axiom fn axiom_string_of_inv(s: String)
+    ensures #[trigger] string_of(s@) == s;
+
